@@ -929,12 +929,34 @@ def explore_c02(ctx, res, replay_ops=None):
     if replay_ops is None or any(o.startswith("cdrsize ") for o in (replay_ops or [])):
         rs = ctx.stream("cdrsize", n_for(ctx, 20, 300), ops=replay_ops, with_model=False)
         start = 0
+        prev_sizes, owner = {}, {}
         for i, (op, im) in enumerate(zip(rs.ops, rs.impl)):
-            if op.split(" ")[1] == "reset":
-                start = i
+            tt = op.split(" ")
+            if tt[1] == "reset":
+                start, prev_sizes, owner = i, {}, {}
+            if tt[1] == "create" and len(tt) > 3:
+                owner[tt[2]] = tt[3]
+            sub = owner.get(tt[2] if len(tt) > 2 else "", "?")
             m = re.search(r" cont=(\d+):(\d+):(\d+) ", im)
             if not m:
                 continue
+            # usage that does not fit the session's record must continue in a new record: merged into the old one it makes
+            # a record the file's 16-bit length field cannot describe, and a reader loses every container of the file
+            mm = re.search(r"^st=(\d+) pre=(-?\d+) chg=(-?\d+) .* recs=(\S+)", im)
+            if mm and tt[1] in ("update", "fit", "fiton"):
+                pre, chg = int(mm.group(2)), int(mm.group(3))
+                sizes = [len(x) // 2 for x in mm.group(4).split(";")] if mm.group(4) != "-" else []
+                before = prev_sizes.get(sub, [])
+                grown = [k for k, z in enumerate(sizes) if z > 65535 and k < len(before) and before[k] <= 65535]
+                if mm.group(1) == "200" and pre >= 0 and chg >= 0 and pre + chg > 65535 and grown:
+                    res.violation("oracle", "C02: usage that did not fit the session's record (%d + %d octets) was merged into it instead of continuing in a "
+                                  "new record: the record is now %d octets, beyond what the CDR file's 16-bit length field can describe, so the "
+                                  "containers of the file are lost to a reader" % (pre, chg, sizes[grown[0]]),
+                                  rs.ops[start:i + 1] + ["# impl: " + im[:160] + "…"])
+                    break
+            if mm:
+                sz = [len(x) // 2 for x in mm.group(4).split(";")] if mm.group(4) != "-" else []
+                prev_sizes[sub] = sz
             res.evaluations += 1
             rec, dis, sent = int(m.group(1)), int(m.group(2)), int(m.group(3))
             res.dist["split-histories:containers=%s" % ("<100" if sent < 100 else "<2600" if sent < 2600 else ">=2600")] += 1
